@@ -304,6 +304,7 @@ fn programs() -> Vec<(&'static str, Option<String>)> {
         ("unnumbered line", Some("10 PRINT 1\nPRINT 9\n20 PRINT 2\n".into())),
         ("blank lines and CRLF", Some("5 REM c\r\n10 PRINT 1\r\n\r\n20 PRINT 2\r\n".into())),
         ("awaits input", Some("10 INPUT A\n20 PRINT A*2\n".into())),
+        ("awaits text", Some("10 INPUT A$\n20 PRINT A$;\"|\"\n".into())),
         ("ends in an error", Some("10 PRINT \"a\"\n20 PRINT 1/0\n".into())),
         ("loops forever", Some("10 X = X + 1\n20 GOTO 10\n".into())),
         ("stops", Some("10 PRINT 1\n20 STOP\n30 PRINT 2\n".into())),
@@ -315,8 +316,12 @@ fn programs() -> Vec<(&'static str, Option<String>)> {
     ]
 }
 
+/// A text that is no number (an unsuitable reply to a numeric INPUT, an unknown statement at
+/// the prompt) and longer than any line buffer of old: 300 characters, some of them two bytes.
+const LONG_TEXT: &str = "xxxxxxxxxxxxxxxxxxxxxxxxxxxxxxxxxxxxxxxxxxxxxxxxxxxxxxxxxxxxxxxxxxxxxxxxxxxxxxxxxxxxxxxxxxxxxxxxxxxxéxxxxxxxxxxxxxxxxxxxxxxxxxxxxxxxxxxxxxxxxxxxxxxxxxxxxxxxxxxxxxxxxxxxxxxxxxxxxxxxxxxxxxxxxxxxxxxxxxxxéxxxxxxxxxxxxxxxxxxxxxxxxxxxxxxxxxxxxxxxxxxxxxxxxxxxxxxxxxxxxxxxxxxxxxxxxxxxxxxxxxxxxxxxxxxxxxxxxxxxy";
+
 fn alphabet() -> Vec<PEv> {
-    let mut v: Vec<PEv> = ["PRINT 1", "10 PRINT 2", "RUN", "NEW", "LIST", "X=", "%", "5", "x", "💥", "", "CONT", "20 INPUT Q", "TRACE", "A = 1 : PRINT 1 / 0", "NEW 10", "30 REM S   ", "PRINT \"HI   ", "PRINT RND(1)", "PRINT \"\";: PRINT", "\u{a0}", " \u{b}"].iter().map(|t| PEv::Submit(t.to_string())).collect();
+    let mut v: Vec<PEv> = ["PRINT 1", "10 PRINT 2", "RUN", "NEW", "LIST", "X=", "%", "5", LONG_TEXT, "💥", "", "CONT", "20 INPUT Q", "TRACE", "A = 1 : PRINT 1 / 0", "NEW 10", "30 REM S   ", "PRINT \"HI   ", "PRINT RND(1)", "PRINT \"\";: PRINT", "\u{a0}", " \u{b}"].iter().map(|t| PEv::Submit(t.to_string())).collect();
     v.push(PEv::Break);
     v.push(PEv::Tick);
     v
